@@ -213,7 +213,9 @@ def outreg_cases(rng, n):
         nwo = rng.choice([8, 16, 24, 40]) if narrow else rng.choice([64, 65, 72, 100, 128]); nfo = rng.choice([0, 1, 16, 30, 40, 63, 64, rng.randint(0, nwo)]) if not narrow else rng.choice([0, 0, 1, fxm[2] + fym[2]])
         def code(fm):
             lo, hi = S.fmt_bounds(fm[0], fm[1]); return rng.choice([lo, hi, hi - 1, lo + 1, rng.randint(lo, hi), rng.randint(lo, hi)])
-        cases.append({'x': fxm, 'cx': code(fxm), 'y': fym, 'cy': code(fym), 'op': rng.choice(['+', '-', '*', '*']), 'out': [fxm[0] or fym[0] or rng.random() < 0.7, nwo, nfo],   # (a signed result into an unsigned out is a documented error)
+        op = rng.choice(['+', '-', '*', '*', 'sum', 'max'])
+        if op in ('sum', 'max'): fym = fxm        # (a reduction of an array [cx, cy] held in one format)
+        cases.append({'x': fxm, 'cx': code(fxm), 'y': fym, 'cy': code(fym), 'op': op, 'out': [fxm[0] or fym[0] or rng.random() < 0.7, nwo, nfo],   # (a signed result into an unsigned out is a documented error)
                       'r': rng.choice(RMODES), 'route': rng.choice(['out', 'op_out']), 'build': rng.choice(['scalar', 'scalar', 'indexed', 'array'])})
     return cases
 
@@ -230,7 +232,10 @@ def run_outreg(cases, res):
             elif c.get('build') == 'array':
                 x = fx.Fxp([c['cx']], *c['x'], raw=True); y = fx.Fxp([c['cy']], *c['y'], raw=True)
             out = fx.Fxp(None, *c['out'], overflow='wrap', rounding=c['r'])
-            if c['route'] == 'out':
+            if c['op'] in ('sum', 'max'):
+                xa = fx.Fxp([c['cx'], c['cy']], *c['x'], raw=True)
+                z = (fx.sum if c['op'] == 'sum' else fx.fxp_max)(xa, out=out)
+            elif c['route'] == 'out':
                 z = {'+': fx.add, '-': fx.sub, '*': fx.mul}[c['op']](x, y, out=out)
             else:
                 x.config.op_out = out
@@ -239,10 +244,10 @@ def run_outreg(cases, res):
         except Exception as e:
             res.fail(c, 'C03: arithmetic into a wide wrap register raised %s' % lib.exc_name(e), got=str(e)[:200]); continue
         xv = Fraction(c['cx'], 1) / (1 << c['x'][2]); yv = Fraction(c['cy'], 1) / (1 << c['y'][2])
-        ex = xv + yv if c['op'] == '+' else (xv - yv if c['op'] == '-' else xv * yv)
+        ex = xv + yv if c['op'] in ('+', 'sum') else (xv - yv if c['op'] == '-' else (max(xv, yv) if c['op'] == 'max' else xv * yv))
         pend.append((c, got, lib.status3(z))); reqs.append([4] + e_fmt(*c['out']) + [RMODES.index(c['r']), 1] + e_list([ex], e_dy))
         # the arithmetic model (raw method into the imposed format: Python integers, exact rationals for a negative rescale)
-        reqs.append([41, {'+': 0, '-': 1, '*': 2}[c['op']]] + e_fmt(*c['x']) + e_list([c['cx']]) + e_fmt(*c['y']) + e_list([c['cy']]) + e_fmt(*c['out']) + [RMODES.index(c['r']), 1])
+        reqs.append([41, {'+': 0, '-': 1, '*': 2, 'sum': 0, 'max': 0}[c['op']]] + e_fmt(*c['x']) + e_list([c['cx']]) + e_fmt(*c['y']) + e_list([c['cy']]) + e_fmt(*c['out']) + [RMODES.index(c['r']), 1])
     outs = model_call(reqs)
     for i, (c, got, st3) in enumerate(pend):
         o = outs[2 * i]; mo = S.read_model_store(outs[2 * i + 1])
@@ -253,6 +258,7 @@ def run_outreg(cases, res):
             res.fail(c, 'C03: arithmetic stored through out= into a wrap register: the overflow / underflow flags are not those of the exact result (an intermediate wrapped)', expected=wflags, got=st3[:2]); continue
         if got != (want, True, tuple(c['out'])):
             res.fail(c, 'C03: arithmetic stored through out= into a wrap register of 64 bits or more is not the residue of the exact result', expected=(want, True, tuple(c['out'])), got=got); continue
+        if c['op'] in ('sum', 'max'): continue           # (reductions into a register: compared with the Spec only)
         if mo['kind'] != 'ok' or mo['codes'] != [got[0]] or mo['status'][:2] != st3[:2]:
             res.fail(c, 'model Arith.arith_raw disagrees with the implementation although the Spec agrees (wide register)', expected=str(mo)[:200], got=(got[0], st3))
             res.failures[-1]['no_input'] = True
